@@ -176,6 +176,96 @@ theorem late_request_starts_fresh_pull (ops : List Op) (c : Caller) (img : Image
   refine ⟨h1, hI1.absent img h1, ?_, (hI2.present img _ h2).1, h2⟩
   simp [s2, step, enabled, apply, request, h1]
 
+/-! ### Progress for any number of images in flight
+
+Nothing in `handleRequest` / `handleResponse` waits for anything but `inFlightLock` (which is only
+held for the body of one of the two, `locks_cover_bodies`) and a send into a channel with a free
+buffer slot (`each_receiver_at_most_one_response`): a request is a step that is always enabled and
+the completion of a pull is enabled whenever that pull is in flight - however many OTHER images
+have a pull in flight at that moment.  The three theorems below say so explicitly; there is no
+bound on the number of images anywhere in the model (a bound on concurrent pulls that is waited
+for inside the lock scope has no counterpart here and shows as `TIMEOUT` in the streams). -/
+
+/-- a registration survives every list of steps that does not complete its own image's pull -/
+theorem registration_persists_run (pre mid : List Op) (img : Image) (r : Recv)
+    (hP : ∃ rs, (run init pre).inFlight img = some rs ∧ r ∈ rs)
+    (hmid : ∀ op ∈ mid, ∀ res, op ≠ .complete img res) :
+    ∃ rs, (run init (pre ++ mid)).inFlight img = some rs ∧ r ∈ rs := by
+  induction mid generalizing pre with
+  | nil => simpa using hP
+  | cons op mid ih =>
+    have h1 : ∃ rs, (run init (pre ++ [op])).inFlight img = some rs ∧ r ∈ rs := by
+      obtain ⟨rs, hi, hr⟩ := hP
+      have h := registration_persists pre img rs r op hi hr (fun res => hmid op (by simp) res)
+      have hrun : run init (pre ++ [op]) = step (run init pre) op := by simp [run]
+      rw [hrun]; exact h
+    have h2 := ih (pre ++ [op]) h1 (fun o ho => hmid o (by simp [ho]))
+    simpa using h2
+
+/-- **request_answered_once_its_pull_completes** (progress, any number of images): after ANY
+history `ops`, a request of caller `c` for `img` goes through at once (a request is always
+enabled: it never waits for the pulls of other images), and after ANY further steps `mid` that do
+not complete `img`'s pull - requests of any callers for any images, so any number of distinct
+images with a pull in flight at the same time, completions of other images, disabled steps - the
+completion of `img`'s pull is enabled and hands the request's receiver exactly one response,
+carrying the pull's result. -/
+theorem request_answered_once_its_pull_completes (ops mid : List Op) (c : Caller) (img : Image)
+    (res : Result) (hmid : ∀ op ∈ mid, ∀ r, op ≠ .complete img r) :
+    let r := (run init ops).nextRecv
+    let s1 := run init (ops ++ [.request c img] ++ mid)
+    enabled (run init ops) (.request c img) = true ∧
+    enabled s1 (.complete img res) = true ∧
+    ∃ cp, (step s1 (.complete img res)).delivered r = [{ res := res, copy := cp }] := by
+  intro r s1
+  have hreg := (request_registers ops c img).1
+  have hrun : run init (ops ++ [.request c img]) = step (run init ops) (.request c img) := by
+    simp [run]
+  have hP : ∃ rs, (run init (ops ++ [.request c img])).inFlight img = some rs ∧ r ∈ rs := by
+    rw [hrun]; exact hreg
+  obtain ⟨rs, hi, hr⟩ := registration_persists_run (ops ++ [.request c img]) mid img r hP hmid
+  exact ⟨rfl, (no_lost_wakeup _ img rs r res hi hr).2,
+    complete_answers_all_registered _ img rs r res hi hr⟩
+
+/-- **pulls_unbounded**: for EVERY `n` the state in which `n` callers have asked for `n` distinct
+images is reachable and has `n` pulls in flight at the same time, one per image - the request
+manager does not bound the number of concurrent pulls (and, by the theorem above, every one of
+these requests and every further one is answered once its pull completes). -/
+theorem pulls_unbounded (n : Nat) :
+    let s := run init ((List.range n).map fun i => Op.request i i)
+    ∀ i, i < n → s.running i = 1 ∧ (s.inFlight i).isSome := by
+  intro s i hi
+  suffices h : ∀ n i, i < n →
+      ((run init ((List.range n).map fun i => Op.request i i)).inFlight i).isSome from
+    ⟨(running_iff_entry _ i).2 (h n i hi), h n i hi⟩
+  intro n
+  induction n with
+  | zero => intro i hi; omega
+  | succ n ih =>
+    intro i hi
+    have hrun : run init ((List.range (n + 1)).map fun i => Op.request i i) =
+        step (run init ((List.range n).map fun i => Op.request i i)) (.request n n) := by
+      simp [List.range_succ, run]
+    rw [hrun]
+    by_cases hin : i = n
+    · subst hin
+      obtain ⟨rs, h, _⟩ := (request_registers ((List.range i).map fun i => Op.request i i) i i).1
+      simp [h]
+    · have hlt : i < n := by omega
+      obtain ⟨rs, hrs⟩ := Option.isSome_iff_exists.mp (ih i hlt)
+      have hne := (entry_nonempty_nodup _ i rs hrs).1
+      obtain ⟨r, hr⟩ := List.exists_mem_of_ne_nil rs hne
+      obtain ⟨rs', h', _⟩ := registration_persists _ i rs r (.request n n) hrs hr (by simp)
+      simp [h']
+
+/-- **cancel_has_no_effect** (modelled behaviour of the code that exists): `Pull` blocks in
+`res := <-r.handleRequest(ctx, image)` - it does not look at its context while it waits, and the
+pull goroutine is not stopped by it - so cancelling the context a caller passed to `Pull` is not a
+step of the request manager at all: on every machine a scenario's `cancel c` leaves the state as
+it is (the in-flight table keeps the caller's receiver, `at_most_one_pull` keeps holding, and the
+caller is answered when the pull completes: `request_answered_once_its_pull_completes`). -/
+theorem cancel_has_no_effect {σ : Type} (n : Nat) (m : Machine σ) (s : σ) (c : Caller) :
+    (stepRec n m s (.cancel c)).2 = s := rfl
+
 /-- **private_copies**: the responses of one broadcast are pairwise distinct copies — two sends of
 the same `handleResponse` that carry the same package object are the same send. -/
 theorem private_copies (ops : List Op) (img : Image) (res : Result) (p q : Recv × Response) (t : Tok)
@@ -241,21 +331,21 @@ specification.  The driver's `model` prints `trace modelMachine steps`; its `mon
 implementation's records of every parked broadcast in the same way and accepts the line iff the
 result equals `traceC specMachine steps`: the model satisfies the monitored property on every
 scenario. -/
-theorem model_trace_collapse_eq_spec (steps : List SStep) :
-    traceC modelMachine steps = traceC specMachine steps := by
+theorem model_trace_collapse_eq_spec (n : Nat) (steps : List SStep) :
+    traceC n modelMachine steps = traceC n specMachine steps := by
   have h0 : C20Refine.Sim modelMachine.init specMachine.init := ⟨inv_init, rfl⟩
-  have h1 := C20Trace.runSteps_sim steps _ _ h0
-  have h2 := C20Trace.drain_sim (List.range nImg) _ _ h1.2
+  have h1 := C20Trace.runSteps_sim n steps _ _ h0
+  have h2 := C20Trace.drain_sim n (List.range n) _ _ h1.2
   simp only [traceC, traceG, List.map_append, List.map_cons, List.map_nil]
   rw [h1.1, h2.1]
-  have : modelMachine.view (drain modelMachine (runSteps modelMachine modelMachine.init steps).2 (List.range nImg)).2
-      = specMachine.view (drain specMachine (runSteps specMachine specMachine.init steps).2 (List.range nImg)).2 := h2.2.2
+  have : modelMachine.view (drain n modelMachine (runSteps n modelMachine modelMachine.init steps).2 (List.range n)).2
+      = specMachine.view (drain n specMachine (runSteps n specMachine specMachine.init steps).2 (List.range n)).2 := h2.2.2
   rw [this]
 
 /-- Without parked broadcasts every step prints exactly one record (on any machine), so judging
 the collapsed trace is judging the printed one. -/
-theorem trace_eq_traceC_of_no_park {σ : Type} (m : Machine σ) (steps : List SStep)
-    (hnp : ∀ st ∈ steps, st.isPark = false) : trace m steps = traceC m steps := by
+theorem trace_eq_traceC_of_no_park {σ : Type} (n : Nat) (m : Machine σ) (steps : List SStep)
+    (hnp : ∀ st ∈ steps, st.isPark = false) : trace n m steps = traceC n m steps := by
   have hone : ∀ (l : List Grp), (∀ g ∈ l, ∃ r, g = .one r) → l.flatMap flat = l.map collapse := by
     intro l hl
     induction l with
@@ -265,7 +355,7 @@ theorem trace_eq_traceC_of_no_park {σ : Type} (m : Machine σ) (steps : List SS
       simp only [List.flatMap_cons, List.map_cons, flat, collapse, List.singleton_append]
       rw [ih (fun g hg => hl g (by simp [hg]))]
   have hrun : ∀ (sts : List SStep) (s : σ), (∀ st ∈ sts, st.isPark = false) →
-      ∀ g ∈ (runSteps m s sts).1, ∃ r, g = .one r := by
+      ∀ g ∈ (runSteps n m s sts).1, ∃ r, g = .one r := by
     intro sts
     induction sts with
     | nil => intro s _ g hg; simp [runSteps] at hg
@@ -278,9 +368,10 @@ theorem trace_eq_traceC_of_no_park {σ : Type} (m : Machine σ) (steps : List SS
         | req c i => simp only [stepRec] at hg; split at hg <;> exact ⟨_, hg⟩
         | done i e => exact ⟨_, hg⟩
         | park i e k mid => simp [SStep.isPark] at hst
+        | cancel c => exact ⟨_, hg⟩
         | bad => exact ⟨_, hg⟩
       · exact ih _ (fun st h => hs st (by simp [h])) g hg
-  have hdrain : ∀ (is : List Image) (s : σ), ∀ g ∈ (drain m s is).1, ∃ r, g = .one r := by
+  have hdrain : ∀ (is : List Image) (s : σ), ∀ g ∈ (drain n m s is).1, ∃ r, g = .one r := by
     intro is
     induction is with
     | nil => intro s g hg; simp [drain] at hg
@@ -304,10 +395,10 @@ theorem trace_eq_traceC_of_no_park {σ : Type} (m : Machine σ) (steps : List SS
 /-- **model_trace_eq_spec_trace**: for every scenario without parked broadcasts (stream `seq`)
 the printed trace of the model of the Go code is, record for record, the printed trace of the
 specification. -/
-theorem model_trace_eq_spec_trace (steps : List SStep) (hnp : ∀ st ∈ steps, st.isPark = false) :
-    trace modelMachine steps = trace specMachine steps := by
-  rw [trace_eq_traceC_of_no_park _ steps hnp, trace_eq_traceC_of_no_park _ steps hnp]
-  exact model_trace_collapse_eq_spec steps
+theorem model_trace_eq_spec_trace (n : Nat) (steps : List SStep) (hnp : ∀ st ∈ steps, st.isPark = false) :
+    trace n modelMachine steps = trace n specMachine steps := by
+  rw [trace_eq_traceC_of_no_park n _ steps hnp, trace_eq_traceC_of_no_park n _ steps hnp]
+  exact model_trace_collapse_eq_spec n steps
 
 /-! ### Atomicity: the lock scope, read off the source, and what it buys -/
 
@@ -346,6 +437,18 @@ theorem sent_package_is_fresh_copy :
     Pko.Gen.ReqMgrLocks.reqMgrSent = [("recv", "rawPkg", true, ["res.RawPackage.DeepCopy()"])] := by
   decide
 
+/-- **nothing_waits_under_the_lock**: inside the critical sections nothing can wait -
+`handleRequest` contains no channel operation, `select`, further lock or wait at all (outside the
+body of the goroutine it starts), `handleResponse` only the send to the receivers, and those are
+channels made with a buffer of one (never exceeded: `each_receiver_at_most_one_response`).  So a
+step of `ReqMgr` never waits for another goroutine while it holds `inFlightLock` - what makes "a
+request is always enabled" and "the completion of a pull in flight is always enabled" true of the
+code and not only of the model (`request_answered_once_its_pull_completes`).  Breaks when e.g. a
+semaphore is acquired inside the lock scope. -/
+theorem nothing_waits_under_the_lock :
+    Pko.Gen.ReqMgrLocks.reqMgrBlocking = [("handleRequest", []), ("handleResponse", ["send recv"])] ∧
+    Pko.Gen.ReqMgrLocks.reqMgrChanMakes = ["make(chan response, 1)"] := by decide
+
 /-- **request_blocked_while_broadcasting**: in the statement-level model a `handleRequest` that
 arrives while `handleResponse` holds the lock (anywhere between its `Lock()` and the deletion of
 the entry) does not happen: nothing is registered in the entry that is about to be deleted. -/
@@ -381,11 +484,11 @@ after any number `k` of sends, let any requests arrive (`mid`; the runner issues
 caller is free), let it finish: the state reached is the one in which the completion happened
 first and the requests after it - a request arriving during a broadcast is neither lost nor
 answered by it, it starts a fresh pull. -/
-theorem parked_request_served_after_broadcast (ops : List Op) (i : Image) (res : Result) (k : Nat)
+theorem parked_request_served_after_broadcast (n : Nat) (ops : List Op) (i : Image) (res : Result) (k : Nat)
     (mid : List (Caller × Image)) (ws : List Recv) (hi : (run init ops).inFlight i = some ws) :
-    (parkModel (run init ops) i res k mid).2 =
+    (parkModel n (run init ops) i res k mid).2 =
       run (run init ops) (.complete i res :: planOps (midPlan (abs (run init ops)) i k mid [] [])) := by
-  rw [C20Fine.parkModel_state _ (reachable_inv ops) i res k mid ws hi]
+  rw [C20Fine.parkModel_state n _ (reachable_inv ops) i res k mid ws hi]
   rfl
 
 /-! ### Non-vacuity -/
@@ -412,12 +515,35 @@ of image 0 and both return its package un-aliased, a busy caller's second reques
 completion without a pull in flight does nothing, the late request starts pull 2, which the final
 drain completes; nobody is left waiting. -/
 example :
-    trace modelMachine [.req 0 0, .req 1 0, .req 1 1, .done 1 false, .done 0 false, .req 2 0] =
+    trace 2 modelMachine [.req 0 0, .req 1 0, .req 1 1, .done 1 false, .done 0 false, .req 2 0] =
       [ .step "q" ⟨true, [1, 0], [1, 0], [], 0⟩, .step "q" ⟨true, [1, 0], [1, 0], [], 0⟩,
         .step "b" ⟨false, [1, 0], [1, 0], [], 0⟩, .step "n" ⟨false, [1, 0], [1, 0], [], 0⟩,
         .step "d" ⟨true, [1, 0], [0, 0], [(0, .pkg 1), (1, .pkg 1)], 0⟩,
         .step "q" ⟨true, [2, 0], [1, 0], [], 0⟩,
         .step "D" ⟨true, [2, 0], [0, 0], [(2, .pkg 2)], 0⟩, .fin 0 ] := by
+  decide
+
+/-- Five images in flight at the same time and a cancellation, through `trace` on the model of the
+Go code: the request for image 4 goes through while four pulls are running; the context of the
+only waiter of image 0 is cancelled (`x`: no effect), so the next request for image 0 joins the
+pull in flight (no second pull: `started` stays 1) and both are answered by it; cancelling an idle
+caller's context is nothing (`y`); the drain answers everybody else. -/
+example :
+    trace 5 modelMachine [.req 0 0, .req 1 1, .req 2 2, .req 3 3, .req 4 4, .cancel 0, .req 5 0,
+        .done 0 false, .cancel 0] =
+      [ .step "q" ⟨true, [1, 0, 0, 0, 0], [1, 0, 0, 0, 0], [], 0⟩,
+        .step "q" ⟨true, [1, 1, 0, 0, 0], [1, 1, 0, 0, 0], [], 0⟩,
+        .step "q" ⟨true, [1, 1, 1, 0, 0], [1, 1, 1, 0, 0], [], 0⟩,
+        .step "q" ⟨true, [1, 1, 1, 1, 0], [1, 1, 1, 1, 0], [], 0⟩,
+        .step "q" ⟨true, [1, 1, 1, 1, 1], [1, 1, 1, 1, 1], [], 0⟩,
+        .step "x" ⟨false, [1, 1, 1, 1, 1], [1, 1, 1, 1, 1], [], 0⟩,
+        .step "q" ⟨true, [1, 1, 1, 1, 1], [1, 1, 1, 1, 1], [], 0⟩,
+        .step "d" ⟨true, [1, 1, 1, 1, 1], [0, 1, 1, 1, 1], [(0, .pkg 1), (5, .pkg 1)], 0⟩,
+        .step "y" ⟨false, [1, 1, 1, 1, 1], [0, 1, 1, 1, 1], [], 0⟩,
+        .step "D" ⟨true, [1, 1, 1, 1, 1], [0, 0, 1, 1, 1], [(1, .pkg 1001)], 0⟩,
+        .step "D" ⟨true, [1, 1, 1, 1, 1], [0, 0, 0, 1, 1], [(2, .pkg 2001)], 0⟩,
+        .step "D" ⟨true, [1, 1, 1, 1, 1], [0, 0, 0, 0, 1], [(3, .pkg 3001)], 0⟩,
+        .step "D" ⟨true, [1, 1, 1, 1, 1], [0, 0, 0, 0, 0], [(4, .pkg 4001)], 0⟩, .fin 0 ] := by
   decide
 
 /-- A parked broadcast, statement by statement: callers 0 and 1 wait for pull 1 of image 0; the
@@ -426,14 +552,14 @@ broadcast is parked after the first send (caller 0 answered, `P`); caller 0 asks
 is not issued either (one pending request per image, `b`); after the broadcast caller 1 is
 answered and caller 0's request has started pull 2 (`U`), which the drain completes. -/
 example :
-    trace modelMachine [.req 0 0, .req 1 0, .park 0 false 1 [(0, 0), (1, 0), (2, 0)]] =
+    trace 2 modelMachine [.req 0 0, .req 1 0, .park 0 false 1 [(0, 0), (1, 0), (2, 0)]] =
       [ .step "q" ⟨true, [1, 0], [1, 0], [], 0⟩, .step "q" ⟨true, [1, 0], [1, 0], [], 0⟩,
         .step "P" ⟨true, [1, 0], [0, 0], [(0, .pkg 1)], 0⟩,
         .step "w" ⟨false, [1, 0], [0, 0], [], 0⟩, .step "b" ⟨false, [1, 0], [0, 0], [], 0⟩,
         .step "b" ⟨false, [1, 0], [0, 0], [], 0⟩,
         .step "U" ⟨true, [2, 0], [1, 0], [(1, .pkg 1)], 0⟩,
         .step "D" ⟨true, [2, 0], [0, 0], [(0, .pkg 2)], 0⟩, .fin 0 ] ∧
-    traceC specMachine [.req 0 0, .req 1 0, .park 0 false 1 [(0, 0), (1, 0), (2, 0)]] =
+    traceC 2 specMachine [.req 0 0, .req 1 0, .park 0 false 1 [(0, 0), (1, 0), (2, 0)]] =
       [ .step "q" ⟨true, [1, 0], [1, 0], [], 0⟩, .step "q" ⟨true, [1, 0], [1, 0], [], 0⟩,
         .step "U" ⟨true, [2, 0], [1, 0], [(0, .pkg 1), (1, .pkg 1)], 0⟩,
         .step "D" ⟨true, [2, 0], [0, 0], [(0, .pkg 2)], 0⟩, .fin 0 ] := by
